@@ -186,12 +186,12 @@ impl<T: BitRead> PackedRead for T {
     #[inline]
     fn read_semi_constrained_whole_number(&mut self, lower_bound: i64) -> Result<i64, Error> {
         let n = self.read_non_negative_binary_integer(None, None)?;
-        if n > i64::MAX as u64 {
-            return Err(ErrorKind::ValueExceedsMaxInt.into());
-        }
-        match (n as i64).checked_add(lower_bound) {
-            Some(value) => Ok(value),
-            None => Err(ErrorKind::ValueExceedsMaxInt.into()),
+        // the sum does not always fit into an i64
+        let value = n as i128 + lower_bound as i128;
+        if value > i64::MAX as i128 {
+            Err(ErrorKind::ValueExceedsMaxInt.into())
+        } else {
+            Ok(value as i64)
         }
     }
 
